@@ -281,14 +281,20 @@ theorem useBuffers_spec (s : State) (request : Nat) (hi : Inv s) :
     · show s.cavail - m2 = 0
       omega
 
-theorem advance_spec (s : State) (n : Nat) (hi : Inv s) (hf : s.fatal = false) (hn : 0 < n) :
+theorem useBuffers_frame (s : State) (n : Nat) :
+    (useBuffers s n).1.noSkipper = s.noSkipper ∧ (useBuffers s n).1.hasSeeker = s.hasSeeker := by
+  simp [useBuffers]
+
+theorem advance_spec (s : State) (n : Nat) (hi : Inv s) (hf : s.fatal = false) (hn : 0 < n)
+    (hns : NoSeekSkip s) :
     GoodAdv s n (SkipsOk s.skips) (advance s n) := by
   unfold advance
   simp only [hf, Bool.false_eq_true, if_false]
   obtain ⟨u1, u2, u3, u4, u5, u6, u7, u8, u9, u10, u12, u11⟩ := useBuffers_spec s n hi
+  obtain ⟨w1, w2⟩ := useBuffers_frame s n
   generalize useBuffers s n = ub at *
   obtain ⟨s2, total⟩ := ub
-  simp only [] at u1 u2 u3 u4 u5 u6 u7 u8 u9 u10 u11 u12 ⊢
+  simp only [] at u1 u2 u3 u4 u5 u6 u7 u8 u9 u10 u11 u12 w1 w2 ⊢
   by_cases h0 : n - total = 0
   · simp only [h0, if_true]
     have : total = n := by omega
@@ -307,12 +313,23 @@ theorem advance_spec (s : State) (n : Nat) (hi : Inv s) (hf : s.fatal = false) (
     have hlen2 : (s2.src.flatten ++ s2.later.flatten.flatten).length =
         s2.src.flatten.length + s2.later.flatten.flatten.length := List.length_append
     -- the skip step
-    have hskip : ∃ r s3, (if s2.canSkip then skipLoop s2 (n - total) 0 s2.skips else ((0 : Int), s2)) = (r, s3) ∧
+    have hskip : ∃ r s3, (if s2.canSkip then (if s2.noSkipper then seekSkip s2 (n - total) else skipLoop s2 (n - total) 0 s2.skips) else ((0 : Int), s2)) = (r, s3) ∧
         SrcOk s3.src ∧ s3 = { s2 with src := s3.src, skips := s3.skips } ∧
         ∃ j, j ≤ n - total ∧ j ≤ s2.src.flatten.length ∧ s3.src.flatten = s2.src.flatten.drop j ∧
           (r = (j : Int) ∨ (r < 0 ∧ ¬ SkipsOk s.skips)) := by
       by_cases hcs : s2.canSkip = true
       · rw [if_pos hcs]
+        by_cases hno : s2.noSkipper = true
+        · -- no skip callback: by `NoSeekSkip` there is no seek callback either, nothing is skipped
+          rw [if_pos hno]
+          have hsk : s2.hasSeeker = false := by
+            rcases hns with h | h
+            · rw [w1, h] at hno; cases hno
+            · rw [w2]; exact h
+          have : seekSkip s2 (n - total) = (0, s2) := by simp [seekSkip, hsk]
+          rw [this]
+          exact ⟨0, s2, rfl, u1.srcOk, rfl, 0, by omega, by omega, by simp, Or.inl rfl⟩
+        rw [if_neg hno]
         obtain ⟨⟨j, j1, j2, j3, j4⟩, k1, k2⟩ := skipLoop_spec s2 (n - total) 0 s2.skips u1.srcOk
         refine ⟨_, _, rfl, k1, k2, j, j1, j2, j3, ?_⟩
         rcases j4 with j4 | ⟨j4, j5⟩
